@@ -2,7 +2,7 @@ PROP = {
     'level': 'proof',
     'coq': ['Properties/C19.v'],
     'coq_gen': ['Properties/C19_gen.v'],
-    'rule': ("seven case kinds from one PRNG. c19.check: real Server.CheckProof with s.CheckPayload/StaticDomain and a scripted "
+    'rule': ("eight case kinds from one PRNG. c19.check: real Server.CheckProof with s.CheckPayload/StaticDomain and a scripted "
              "fake abi.Executor vs the extracted model (Gallina SHA-256; oracle columns computed with crypto/hmac, encoding/base64, "
              "tongo boc/tlb, crypto/ed25519): honest proofs by the real CreateSignedProof for all 11 constructible wallet versions "
              "V1R1..V5R1 x key from get-method / from state-init; every single-field substitution (address other/one digit/workchain, "
@@ -16,7 +16,14 @@ PROP = {
              "absent/broken, split_depth/special, hand-built header bit strings x 0..3 refs, library bit, two/zero roots, library/pruned "
              "cells, base64 garbage, truncations, bit flips), each also with a signature forged for the all-zero Ed25519 key. c19.clock: "
              "honest proof built at the real clock with proof/payload time = now+d, d in {-L-2..-L+1,-1,0,1,5,10^6} for lifetimes "
-             "default/1/2/300/3600 and payloads from the real GeneratePayload. c19.msg (createMessage bytes), c19.conv "
+             "default/1/2/300/3600 and payloads from the real GeneratePayload. c19.hist: HISTORIES of 2..6 CheckProof calls on ONE "
+             "tonconnect.Server value, sequentially and concurrently (all calls at once from goroutines, twice), each result compared "
+             "with the model's result for that call ALONE: attacker's own login with state-init S then S presented for a victim's "
+             "address signed by the attacker (also forged-login-forged-victim login-forged), same address with another wallet's "
+             "state-init between two honest logins, key first from the get-method then a foreign state-init when the get-method fails, "
+             "replays of the same proof, one payload reused by two wallets, expired / foreign-secret payloads and a changed timestamp "
+             "before and after a good call, random histories over logins and substitutions; oracle: a call that must be rejected is "
+             "rejected whatever came before, honest calls are accepted with their own key. c19.msg (createMessage bytes), c19.conv "
              "(convertTonProofMessage + ParseAccountID), c19.payload, c19.pubkey (getWalletPubKey), c19.stateinit "
              "(compareStateInitWithAddress + ParseStateInit) exercise the parts alone. Oracles on the implementation: honest => accepted "
              "with the wallet key; every substitution => rejected; never a panic; accepted only with the key in the data; lifetime "
@@ -26,7 +33,10 @@ PROP = {
                     "fields, and pk came from the account's get-method or from a single-cell state-init hashing to the address whose "
                     "code hash is a known wallet and whose data holds pk; honest proofs are accepted with pub sk; the byte layout is "
                     "injective for equal address lengths (counter-example otherwise; same-account collision only for the zero address); "
-                    "rejection corollaries under an ideal signature; lifetime boundary to the nanosecond. coq/Properties/C19_gen.v "
+                    "rejection corollaries under an ideal signature; lifetime boundary to the nanosecond; C19_history_independent: the "
+                    "answer to a call within any history on one Server is the answer to the call alone (the model has no state; the "
+                    "content is the c19.hist correspondence), and a cache of verified state-inits not keyed by the address is refuted "
+                    "by a 2-call history (C19_addressless_cache_refuted). coq/Properties/C19_gen.v "
                     "re-checks on the constants translated from today's source: prefixes, default lifetimes, get_public_key method id "
                     "(= crc16 of the name | 0x10000), knownHashes range, the switch of ParseStateInit (key offsets 32/64/113/65 derived "
                     "from the wallet data structs, default clause is an error), and recomputes all 12 code hashes from the code BOCs "
@@ -47,12 +57,14 @@ META = {
              "payload)) built from the proof's own fields, and the key is the account's get_public_key answer or the key inside a state-init "
              "that hashes to the address and carries a known wallet code; honest proofs are accepted and yield the wallet key; under ideal "
              "signatures any other signer or changed field is rejected; CheckProof never panics on any malformed input. The extracted model "
-             "agrees with the implementation on ~1.3k (quick) / ~9.9k (thorough) cases per seed incl. lifetime +-1 s at the real clock. "
+             "agrees with the implementation on ~1.3k (quick) / ~10.3k (thorough) cases per seed incl. lifetime +-1 s at the real clock "
+             "and histories of 2..6 calls on one Server value (sequential and concurrent), each call compared with the model's answer "
+             "for that call alone. "
              "Two defects repaired in ParseStateInit: panic on state-init without code/data (F16) and an all-zero public key for "
              "V3R2Lockup state-inits, for which anybody can forge signatures (F22)."),
     'design_ref': 'DESIGN.md §6 C19, §7 F16',
     'note': ("Trusted: Coq kernel, extraction, drivers, Go harness; crypto, base64, BOC parse/hash and dictionary decoding enter as "
              "parameters (theorems) / oracle columns computed by Go (correspondence). c19.check uses timestamps decades from the clock; "
              "boundaries are exercised by c19.clock against the real clock."),
-    'technique': 'Coq model with Panic outcomes + inversion theorems + translator obligations (code hashes recomputed in Coq) + extracted-model correspondence',
+    'technique': 'Coq model with Panic outcomes + inversion theorems + translator obligations (code hashes recomputed in Coq) + extracted-model correspondence incl. call histories on one Server',
 }
